@@ -34,7 +34,7 @@ def make_case(rng, tier):
         else:
             prog['steps'].append({'op': 'reshape', 'a': prog['out'], 'shape': [n], 'how': 'fn'})
             prog['out'] += 1 if False else 0
-            prog['out'] = len(prog['inputs']) + sum(1 for s in prog['steps'] if s['op'] != 'setitem') - 1
+            prog['out'] = len(prog['inputs']) + sum(1 for s in prog['steps'] if s['op'] not in ('setitem', 'setbc')) - 1
             prog['out_shape'] = [n]
     rec_kind = rng.choice(['nd', 'ut'])
     D, P = rng.randint(1, 3), rng.randint(1, 2)
@@ -159,7 +159,8 @@ def poly_case(rng):
     # p(x) = sum_k c_k prod_i x_i^{e_ki}
     terms = [(rng.randint(-3, 3), [rng.randint(0, 3) for _ in range(N)]) for _ in range(rng.randint(1, 4))]
     return {'op': 'poly', 'N': N, 'terms': terms, 'rec': [rng.randint(-3, 3) for _ in range(N)],
-            'x': [rng.randint(-3, 3) for _ in range(N)], 'v': [rng.randint(-2, 2) for _ in range(N)]}
+            'x': [rng.randint(-3, 3) for _ in range(N)], 'v': [rng.randint(-2, 2) for _ in range(N)],
+            'xkind': rng.choice(['float', 'float', 'int-array', 'int-list']), 'w': rng.choice([0.5, -1.25, 2.0])}
 
 
 def poly_eval(terms, xs):
@@ -184,8 +185,10 @@ def poly_fails(case):
     cg.trace_off()
     cg.independentFunctionList = [fx]
     cg.dependentFunctionList = [fy]
-    x = np.array(case['x'], dtype=float)
+    xk = case.get('xkind', 'float')
+    x = np.array(case['x'], dtype=float) if xk == 'float' else (np.array(case['x'], dtype=int) if xk == 'int-array' else [int(a) for a in case['x']])
     v = np.array(case['v'], dtype=float)
+    w = np.array([case.get('w', 1.0)])
     # exact gradient / hessian by differentiating monomials
     g = [F(0)] * N
     H = [[F(0)] * N for _ in range(N)]
@@ -207,12 +210,33 @@ def poly_fails(case):
     H = np.array([[float(a) for a in row] for row in H])
     try:
         got_g = cg.gradient(x)
+        if isinstance(got_g, list):          # a list argument is answered with a list (one gradient per independent)
+            got_g = got_g[0]
         got_H = cg.hessian(x)
         got_Hv = cg.hess_vec(x, v)
     except Exception as ex:
         return 'poly-exception: %s' % (str(ex).strip().splitlines()[-1][:100])
     if not (close(got_g, g, 1e-10) and close(got_H, H, 1e-10) and close(got_Hv, H @ v, 1e-10)):
-        return 'poly: gradient/hessian of a polynomial program differ from the exact analytic derivatives'
+        return 'poly: gradient/hessian of a polynomial program differ from the exact analytic derivatives (point given as %s)' % xk
+    # the weighted and Jacobian drivers on the same program seen as R^N -> R^1
+    cg2 = algopy.CGraph()
+    fx2 = algopy.Function(np.array(case['rec'], dtype=float))
+    fy2 = algopy.zeros(1, dtype=fx2)
+    fy2[0] = f(fx2)
+    cg2.trace_off()
+    cg2.independentFunctionList = [fx2]
+    cg2.dependentFunctionList = [fy2]
+    try:
+        got = {'jacobian': (np.asarray(cg2.jacobian(x), dtype=float), g.reshape(1, N)),
+               'jac_vec': (np.asarray(cg2.jac_vec(x, v), dtype=float), np.array([g @ v])),
+               'vec_jac': (np.asarray(cg2.vec_jac(w, x), dtype=float), w[0] * g),
+               'vec_hess': (np.asarray(cg2.vec_hess(w, x), dtype=float), w[0] * H),
+               'vec_hess_vec': (np.asarray(cg2.vec_hess_vec(w, x, v), dtype=float), w[0] * (H @ v))}
+    except Exception as ex:
+        return 'poly-exception-weighted: %s' % (str(ex).strip().splitlines()[-1][:100])
+    for name, (a, b) in got.items():
+        if np.shape(a) != np.shape(b) or not close(a, b, 1e-10):
+            return 'poly-%s: differs from the exact analytic derivative (point given as %s)' % (name, xk)
     return None
 
 
